@@ -23,7 +23,7 @@ def hashSize : Nat := 32
 def genT (k : Bytes) : Nat → Bytes → Bytes → Bytes × Bytes
   | 0, v, t => (v, t)
   | m + 1, v, t =>
-    let v := hmacSha256 k v
+    let v := hmacSha256L k v
     genT k m v (t ++ v)
 
 /-- the outer `while 1` loop (no termination argument exists: it depends on HMAC outputs; fuel) -/
@@ -34,8 +34,8 @@ def kLoop (n : Nat) (bln orderSize : Nat) : Nat → Bytes → Bytes → Except E
     let k1 := beNat t >>> (t.length * 8 - bln)
     if 1 ≤ k1 ∧ k1 < n then .ok (k1 : Int)
     else
-      let k := hmacSha256 k (v ++ [0])
-      let v := hmacSha256 k v
+      let k := hmacSha256L k (v ++ [0])
+      let v := hmacSha256L k v
       kLoop n bln orderSize f k v
 
 /-- `deterministic_generate_k(generator_order, secret_exponent, val)` -/
@@ -52,10 +52,10 @@ def deterministicGenerateKFuel (fuel : Nat) (n : Nat) (d val : Int) : Except Err
     match toBytesBE val orderSize with
     | .error e => .error e
     | .ok h1 =>
-      let k := hmacSha256 k (v ++ [0] ++ priv ++ h1)
-      let v := hmacSha256 k v
-      let k := hmacSha256 k (v ++ [1] ++ priv ++ h1)
-      let v := hmacSha256 k v
+      let k := hmacSha256L k (v ++ [0] ++ priv ++ h1)
+      let v := hmacSha256L k v
+      let k := hmacSha256L k (v ++ [1] ++ priv ++ h1)
+      let v := hmacSha256L k v
       kLoop n bln orderSize fuel k v
 
 /-- fuel used by the driver and by `sign`: each retry succeeds with probability ≥ 1/2 -/
